@@ -171,44 +171,77 @@ def qname(h):
     return None if q is None else q.name
 
 
-def snap(h):
-    """token list of an aggregator, independent of toJson (attributes only)"""
-    n = type(h).__mro__
+class F:
+    """a number in an observation (compared by value; bit-exact in the tie)"""
+    __slots__ = ("x",)
+
+    def __init__(self, x):
+        self.x = float(x)
+
+
+class S:
+    __slots__ = ("s",)
+
+    def __init__(self, s):
+        self.s = s
+
+
+class OS:
+    __slots__ = ("s",)
+
+    def __init__(self, s):
+        self.s = s
+
+
+class K:
+    __slots__ = ("k",)
+
+    def __init__(self, k):
+        self.k = k
+
+
+class BK:
+    __slots__ = ("k", "rng")
+
+    def __init__(self, k, rng):
+        self.k = k
+        self.rng = rng
+
+
+def tree(h):
+    """flat list of items (ints, F, S, OS, K, BK) describing an aggregator through its
+    attributes only (never toJson); same layout as coq/Model/Snap.v"""
     name = h.name
     d = h.__dict__
     if name == "Count":
         tr = d["transform"]
-        return [100, 0 if tr is identity or tr == identity else 1] + ftok(d["entries"])
+        return [100, 0 if tr is identity or tr == identity else 1, F(d["entries"])]
     if name in ("Sum", "Average", "Minimize", "Maximize"):
         f = {"Sum": "sum", "Average": "mean", "Minimize": "min", "Maximize": "max"}[name]
-        return [LEAFTAG[name]] + tok_optstr(qname(h)) + ftok(d["entries"]) + ftok(d[f])
+        return [LEAFTAG[name], OS(qname(h)), F(d["entries"]), F(d[f])]
     if name == "Deviate":
-        return ([103] + tok_optstr(qname(h)) + ftok(d["entries"]) + ftok(d["mean"])
-                + ftok(d["varianceTimesEntries"]))
+        return [103, OS(qname(h)), F(d["entries"]), F(d["mean"]), F(d["varianceTimesEntries"])]
     if name == "Bag":
         rng = d["range"]
         items = sorted(d["values"].items(), key=lambda kv: bagkey_sort(kv[0]))
-        out = [106, {"S": 0, "N": 1}[rng]] + tok_optstr(qname(h)) + ftok(d["entries"]) + [len(items)]
+        out = [106, {"S": 0, "N": 1}[rng], OS(qname(h)), F(d["entries"]), len(items)]
         for k, c in items:
-            out += tok_bagkey(k, rng) + ftok(c)
+            out += [BK(k, rng), F(c)]
         return out
-    # nodes
     if name == "Bin":
-        head = [200] + ftok(d["low"]) + ftok(d["high"])
+        head = [200, F(d["low"]), F(d["high"])]
         fx = list(d["values"]) + [d["underflow"], d["overflow"], d["nanflow"]]
         sp = []
         hasq = True
     elif name == "SparselyBin":
-        head = [201] + ftok(d["binWidth"]) + ftok(d["origin"])
+        head = [201, F(d["binWidth"]), F(d["origin"])]
         fx = [d["nanflow"]]
         sp = sorted(d["bins"].items(), key=lambda kv: key_sort(kv[0]))
         hasq = True
     elif name in ("CentrallyBin", "IrregularlyBin", "Stack"):
         tag = {"CentrallyBin": 202, "IrregularlyBin": 203, "Stack": 204}[name]
         cs = [c for c, v in d["bins"]]
-        head = [tag, len(cs)]
-        for c in cs:
-            head += ftok(c)
+        head = [tag, len(cs)] + [F(c) for c in cs]
         fx = [v for c, v in d["bins"]] + [d["nanflow"]]
         sp = []
         hasq = True
@@ -229,9 +262,7 @@ def snap(h):
         hasq = True
     elif name in ("Label", "UntypedLabel"):
         ks = sorted(d["pairs"].keys(), key=lambda s: s.encode("utf-8"))
-        head = [208 if name == "Label" else 209, len(ks)]
-        for kk in ks:
-            head += tok_str(kk)
+        head = [208 if name == "Label" else 209, len(ks)] + [S(kk) for kk in ks]
         fx = [d["pairs"][kk] for kk in ks]
         sp = []
         hasq = False
@@ -242,13 +273,75 @@ def snap(h):
         hasq = False
     else:
         raise ValueError("unknown container " + name)
-    out = head + (tok_optstr(qname(h)) if hasq else []) + ftok(d["entries"]) + [len(fx)]
+    out = head + ([OS(qname(h))] if hasq else []) + [F(d["entries"]), len(fx)]
     for c in fx:
-        out += snap(c)
+        out += tree(c)
     out.append(len(sp))
     for kk, c in sp:
-        out += tok_key(kk) + snap(c)
+        out += [K(kk)] + tree(c)
     return out
+
+
+def tokens(items):
+    out = []
+    for it in items:
+        if isinstance(it, F):
+            out += ftok(it.x)
+        elif isinstance(it, S):
+            out += tok_str(it.s)
+        elif isinstance(it, OS):
+            out += tok_optstr(it.s)
+        elif isinstance(it, K):
+            out += tok_key(it.k)
+        elif isinstance(it, BK):
+            out += tok_bagkey(it.k, it.rng)
+        else:
+            out.append(int(it))
+    return out
+
+
+def snap(h):
+    return tokens(tree(h))
+
+
+def same_value(x, y):
+    return (x != x and y != y) or x == y
+
+
+def close(x, y, rel=1e-9, ab=1e-9):
+    if x != x or y != y:
+        return x != x and y != y
+    if x == y:
+        return True
+    if abs(x) == INF or abs(y) == INF:
+        return False
+    return abs(x - y) <= max(ab, rel * max(abs(x), abs(y)))
+
+
+def compare_trees(a, b, exact=True):
+    """None if equal, else a short description of the first difference"""
+    if len(a) != len(b):
+        return "different shape (%d vs %d items)" % (len(a), len(b))
+    for i, (x, y) in enumerate(zip(a, b)):
+        if isinstance(x, F) and isinstance(y, F):
+            ok = same_value(x.x, y.x) if exact else close(x.x, y.x)
+            if not ok:
+                return "item %d: %r vs %r" % (i, x.x, y.x)
+        elif type(x) is not type(y):
+            return "item %d: kinds differ" % i
+        elif isinstance(x, (S, OS)):
+            if x.s != y.s:
+                return "item %d: %r vs %r" % (i, x.s, y.s)
+        elif isinstance(x, K):
+            if tok_key(x.k) != tok_key(y.k):
+                return "item %d: key %r vs %r" % (i, x.k, y.k)
+        elif isinstance(x, BK):
+            if tok_bagkey(x.k, x.rng) != tok_bagkey(y.k, y.rng):
+                if exact or isinstance(x.k, str) or isinstance(y.k, str) or not close(float(x.k), float(y.k)):
+                    return "item %d: bag key %r vs %r" % (i, x.k, y.k)
+        elif x != y:
+            return "item %d: %r vs %r" % (i, x, y)
+    return None
 
 
 def exc_class(e):
